@@ -190,7 +190,7 @@ func covered(op compiler.Opcode) bool {
 		compiler.Opcode_Member_Anyobj, compiler.Opcode_Into_Range, compiler.Opcode_Call_Imm, compiler.Opcode_Return,
 		compiler.Opcode_Clone, compiler.Opcode_Cloning_Push, compiler.Opcode_Eq, compiler.Opcode_Eq_PopOnce, compiler.Opcode_Throw,
 		compiler.Opcode_Index, compiler.Opcode_Cast, compiler.Opcode_Member, compiler.Opcode_IntoIter,
-		compiler.Opcode_GetGlobImm, compiler.Opcode_SetGlobImm, compiler.Opcode_IteratorAdvance, compiler.Opcode_Load_Singleton, compiler.Opcode_HostCall:
+		compiler.Opcode_GetGlobImm, compiler.Opcode_SetGlobImm, compiler.Opcode_IteratorAdvance, compiler.Opcode_Load_Singleton, compiler.Opcode_HostCall, compiler.Opcode_Call_Val:
 		return true
 	}
 	return isBinary(op)
@@ -240,6 +240,20 @@ func instrPre(c Core, i compiler.Instruction) bool {
 		return c.okTop(2) && c.peek(0).Kind() == value.IntValueKind && c.peek(1).Kind() == value.IntValueKind
 	case compiler.Opcode_Clone, compiler.Opcode_Throw, compiler.Opcode_IntoIter:
 		return c.okTop(1)
+	case compiler.Opcode_Call_Val:
+		// the argument count is on top, the callee (a function of the program or a builtin) below it, the arguments below that
+		if !c.okTop(2) || c.parent == nil || len(c.CallStack) == 0 {
+			return false
+		}
+		n, isInt := c.peek(0).(value.ValueInt)
+		if !isInt || n.Inner < 0 || n.Inner >= 1<<30 || int64(len(c.Stack)) < 2+n.Inner {
+			return false
+		}
+		if b, isBuiltin := c.peek(1).(value.ValueBuiltinFunction); isBuiltin {
+			return b.Callback != nil
+		}
+		_, isVmFn := c.peek(1).(value.ValueVMFunction)
+		return isVmFn
 	case compiler.Opcode_HostCall:
 		// the argument count is on top, that many arguments below it
 		if !c.okTop(1) || c.hostCall == nil {
@@ -376,7 +390,7 @@ func stackEffect(op compiler.Opcode) int {
 // instruction pointer of the current frame by one.
 func keepsFrame(op compiler.Opcode) bool {
 	switch op {
-	case compiler.Opcode_Jump, compiler.Opcode_JumpIfFalse, compiler.Opcode_Call_Imm, compiler.Opcode_Return:
+	case compiler.Opcode_Jump, compiler.Opcode_JumpIfFalse, compiler.Opcode_Call_Imm, compiler.Opcode_Return, compiler.Opcode_Call_Val:
 		return false
 	}
 	return true
@@ -431,9 +445,12 @@ func keepsFrame(op compiler.Opcode) bool {
     requires instrPre(*self, instruction)
     ensures @iterator-advance instruction.Opcode() == compiler.Opcode_IteratorAdvance ==> result == nil
     ensures @host-call-consumes-its-arguments instruction.Opcode() == compiler.Opcode_HostCall && result == nil ==> int64(len(self.Stack)) == old(int64(len(self.Stack))) - old(self.peek(0).(value.ValueInt).Inner)
+    ensures @call-of-a-program-function instruction.Opcode() == compiler.Opcode_Call_Val && old(self.peek(1)).Kind() == value.VmFunctionValueKind ==> result == nil && len(self.CallStack) == old(len(self.CallStack))+1 && len(self.Stack) == old(len(self.Stack))-2
+    loop "i < int(numArgs)"#2 invariant 0 <= i && i <= int(numArgs) && len(self.Stack) == entry(len(self.Stack)) - i && (cap(args) == 0 || fresh(args)) && sameslice(self.Stack[:0], entry(self.Stack[:0]))
+    assume @builtin-results-are-values before if res != nil && (*res).Kind() != value.NullValueKind { :: res == nil || *res != nil
     loop "i < argc" invariant 0 <= i && i <= argc && len(self.Stack) == entry(len(self.Stack)) - i && (cap(args) == 0 || fresh(args)) && sameslice(self.Stack[:0], entry(self.Stack[:0]))
     modifies self.Stack, self.CallStack, self.MemoryPointer, self.ExceptionCatchLabels, self.tryStates, elems(self.tryStates), elems(self.Stack), elems(self.Memory), elems(self.CallStack), elems(self.ExceptionCatchLabels), heap(value.Value), mapcontent(self.parent.globals.Data)
-    ensures @interrupt-wellformed result != nil && instruction.Opcode() != compiler.Opcode_HostCall ==> *result != nil
+    ensures @interrupt-wellformed result != nil && instruction.Opcode() != compiler.Opcode_HostCall && instruction.Opcode() != compiler.Opcode_Call_Val ==> *result != nil
     ensures @frames-on-interrupt result != nil ==> len(self.CallStack) == old(len(self.CallStack))
     requires disjoint(self.CallStack, self.ExceptionCatchLabels) && disjoint(self.Stack, self.Memory)
     requires self.Limits.MaxMemorySize < 1<<62
@@ -446,13 +463,13 @@ func keepsFrame(op compiler.Opcode) bool {
     ensures @binary result == nil && isBinary(instruction.Opcode()) ==> binResult(instruction.Opcode(), old(self.peek(1)), old(self.peek(0)), self.peek(0))
     ensures @raises isBinary(instruction.Opcode()) ==> (result != nil <==> raises(instruction.Opcode(), old(self.peek(0))))
     ensures @raises-kind isBinary(instruction.Opcode()) && result != nil ==> fatalOf(result, value.Vm_ValueErrorKind)
-    ensures @effect covered(instruction.Opcode()) && instruction.Opcode() != compiler.Opcode_HostCall && result == nil ==> self.depth() == old(self.depth())+stackEffect(instruction.Opcode())
-    ensures @effect-the-code-generator-counts-with covered(instruction.Opcode()) && instruction.Opcode() != compiler.Opcode_HostCall && result == nil ==> self.depth() == old(self.depth())+compiler.VStackEffect(instruction)
+    ensures @effect covered(instruction.Opcode()) && instruction.Opcode() != compiler.Opcode_HostCall && instruction.Opcode() != compiler.Opcode_Call_Val && result == nil ==> self.depth() == old(self.depth())+stackEffect(instruction.Opcode())
+    ensures @effect-the-code-generator-counts-with covered(instruction.Opcode()) && instruction.Opcode() != compiler.Opcode_HostCall && instruction.Opcode() != compiler.Opcode_Call_Val && result == nil ==> self.depth() == old(self.depth())+compiler.VStackEffect(instruction)
     ensures @advance covered(instruction.Opcode()) && result == nil && keepsFrame(instruction.Opcode()) ==> len(self.CallStack) == old(len(self.CallStack)) && self.frameIP() == old(self.frameIP())+1
     ensures @unary result == nil && (instruction.Opcode() == compiler.Opcode_Neg || instruction.Opcode() == compiler.Opcode_Not) ==> unaryResult(instruction.Opcode(), old(self.peek(0)), self.peek(0))
-    ensures @no-error-otherwise covered(instruction.Opcode()) && instruction.Opcode() != compiler.Opcode_HostCall && !isBinary(instruction.Opcode()) && instruction.Opcode() != compiler.Opcode_AddMempointer && instruction.Opcode() != compiler.Opcode_Member_Unwrap && instruction.Opcode() != compiler.Opcode_Eq && instruction.Opcode() != compiler.Opcode_Eq_PopOnce && instruction.Opcode() != compiler.Opcode_Throw && instruction.Opcode() != compiler.Opcode_Index && instruction.Opcode() != compiler.Opcode_Cast ==> result == nil
+    ensures @no-error-otherwise covered(instruction.Opcode()) && instruction.Opcode() != compiler.Opcode_HostCall && instruction.Opcode() != compiler.Opcode_Call_Val && !isBinary(instruction.Opcode()) && instruction.Opcode() != compiler.Opcode_AddMempointer && instruction.Opcode() != compiler.Opcode_Member_Unwrap && instruction.Opcode() != compiler.Opcode_Eq && instruction.Opcode() != compiler.Opcode_Eq_PopOnce && instruction.Opcode() != compiler.Opcode_Throw && instruction.Opcode() != compiler.Opcode_Index && instruction.Opcode() != compiler.Opcode_Cast ==> result == nil
     ensures @throw instruction.Opcode() == compiler.Opcode_Throw ==> result != nil && len(self.CallStack) == old(len(self.CallStack)) && self.depth() == old(self.depth())-1
-    ensures @frames-kept covered(instruction.Opcode()) && instruction.Opcode() != compiler.Opcode_Call_Imm && instruction.Opcode() != compiler.Opcode_Return ==> len(self.CallStack) == old(len(self.CallStack))
+    ensures @frames-kept covered(instruction.Opcode()) && instruction.Opcode() != compiler.Opcode_Call_Imm && instruction.Opcode() != compiler.Opcode_Return && instruction.Opcode() != compiler.Opcode_Call_Val ==> len(self.CallStack) == old(len(self.CallStack))
     ensures @jump instruction.Opcode() == compiler.Opcode_Jump ==> self.frameIP() == uint(instruction.(compiler.OneIntInstruction).Value) && len(self.CallStack) == old(len(self.CallStack))
     ensures @jump-if-false instruction.Opcode() == compiler.Opcode_JumpIfFalse && !old(self.peek(0)).(value.ValueBool).Inner ==> self.frameIP() == uint(instruction.(compiler.OneIntInstruction).Value)
     ensures @jump-if-true instruction.Opcode() == compiler.Opcode_JumpIfFalse && old(self.peek(0)).(value.ValueBool).Inner ==> self.frameIP() == old(self.frameIP())+1
